@@ -1,0 +1,16 @@
+//go:build verif
+
+// Contracts for contract-based deductive verification (see /verif/DESIGN.md).
+// This file is comment-only: with the build tag "verif" off it is not even
+// parsed, with the tag on it adds nothing to the binary.  The "//@" lines are
+// read by /verif/govc, which generates verification conditions from the
+// go/ssa form of the functions named here and discharges them with z3/cvc5.
+
+package eval
+
+//@ func contains C04 C05 C20
+//@   ensures [member] (= $ret0 (exists ((k Int)) (and (<= 0 k) (< k (len $params)) (= (idx $params k) $target))))
+//@   loop 1 (rangeindex)
+//@     invariant [range] (and (<= -1 $rangeindex) (< $rangeindex (ite (= (len $params) 0) 1 (len $params))))
+//@     invariant [none-before] (forall ((k Int)) (=> (and (<= 0 k) (<= k $rangeindex)) (not (= (idx $params k) $target))))
+//@     decreases (- (len $params) $rangeindex)
